@@ -642,7 +642,7 @@ func (st *c12State) effects() map[string]string {
 			fmt.Fprintf(&s, " info=%+v", *a.Info)
 		}
 		s.WriteByte('\n')
-		fmt.Fprintf(&q, "%s tasks=%d queue=", a.NameID, len(a.Tasks))
+		fmt.Fprintf(&q, "%s tasks=%d queue=", a.NameID, len(OutstandingIDs(a)))
 		for _, j := range a.JobQueue {
 			fmt.Fprintf(&q, "%d:%x:%s,", j.Command, j.RequestID, j.TaskID)
 		}
